@@ -365,7 +365,12 @@ func (w *World) guardCallsIn(facts []Fact, callee *ssa.Function, idx int, want s
 		}
 		c, i := callOf(w.resolveLoad(v))
 		if c == nil {
-			continue
+			// the accessor's lookup written out in place counts as a call of the accessor
+			if ac := w.asAccessorCall(v, callee); ac != nil {
+				c, i = ac, -1
+			} else {
+				continue
+			}
 		}
 		if c.Call.StaticCallee() == callee {
 			if i == idx && outcome == want {
